@@ -293,6 +293,9 @@ def run(chk, F):
     c13.rule_r3(chk, F, rid="C02.R1b")
     from rules import c02_tables
     c02_tables.run_tables(chk, F)
+    # C02.R6: the wire protocol between the host and the optimizing compiler (engine of C18.R4)
+    from rules import c18_wire
+    c18_wire.run_wire(chk, F, rid="C02.R6")
     chk.assumptions += [
         "decides presence and dominance of run-time checks, handler coverage, ABI/table agreement and native "
         "signature agreement; that a check computes the right condition for every value and that the two back ends "
